@@ -41,7 +41,7 @@ func Merge(rep *report.Report, label string, res mc.Result, depth int) {
 	rep.Set("search:"+label, map[string]any{
 		"states": res.States, "transitions": res.Transitions, "depth_completed": res.DepthCompleted, "depth_target": depth,
 		"closed": res.Closed, "states_per_depth": res.PerDepth, "exhaustive_to_target": res.Exhaustive,
-		"differential_checks": res.ObsChecked,
+		"differential_checks": res.ObsChecked, "violating_transitions_not_expanded": res.Pruned,
 	})
 	for _, s := range res.Samples {
 		rep.Sample(map[string]any{"search": label, "history": s})
@@ -72,5 +72,105 @@ func RunC01(rep *report.Report, tier string) {
 	for _, nofwd := range []bool{false, true} {
 		o := &Options{Letters: letters, NoFwdRefs: nofwd, Checks: Checks{Fold: true}}
 		Search(rep, fmt.Sprintf("rib/forward-refs-%v", !nofwd), o, depth, dl)
+	}
+}
+
+var c02Letters = []string{
+	"ADD nh1@D a", "DELETE nh1@D", "ADD nh2@D", "DELETE nh2@D", "ADD nh1@V",
+	"ADD nhg1@D {1}", "ADD nhg1@D {1,2}", "REPLACE nhg1@D {2}", "DELETE nhg1@D", "ADD nhg2@D {2}", "ADD nhg1@V {1}",
+	"ADD v4 p@D ->1", "ADD v4 p@D ->1@V", "REPLACE v4 p@D ->2", "DELETE v4 p@D",
+	"ADD v6 q@D ->1", "ADD mpls 100@D ->1", "FLUSH all",
+	"ADD nhg3@D {0}", "ADD nhg3@D {}", "ADD v4 s@D ->0", "ADD v4 s@D ->1@NOPE",
+}
+
+var c02Graphs = map[string][]string{
+	"G1": {"ADD nh1@D a", "ADD nhg1@D {1}", "ADD v4 p@D ->1"},
+	"G2": {"ADD nh1@D a", "ADD nh2@D", "ADD nhg1@D {1,2}", "ADD v4 p@D ->1", "ADD v6 q@D ->1", "ADD mpls 100@D ->1"},
+	"G3": {"ADD nh1@V", "ADD nhg1@V {1}", "ADD v4 p@D ->1@V", "ADD nh1@D a", "ADD nhg1@D {1}", "ADD mpls 100@D ->1"},
+	"G4": {"ADD nh1@D a", "ADD nh2@D", "ADD nhg1@D {1,2}", "ADD v4 p@D ->1", "ADD v4 r@D ->1", "ADD nhg2@D {3}", "ADD v6 q@D ->2"},
+	"G5": {"ADD nh1@D a", "ADD nhg1@D {1}", "ADD v4 p@D ->1", "REPLACE v4 p@D ->2", "ADD nhg2@D {2}", "ADD nh2@D", "DELETE v4 p@D"},
+}
+
+// RunC02 decides C02 at the RIB tier.
+func RunC02(rep *report.Report, tier string) {
+	depth, maxGraph := 4, 7
+	dl := Budget(tier, 100*time.Second, 20*time.Minute)
+	if tier == "thorough" {
+		depth, maxGraph = 6, 7
+	}
+	letters := Alphabet(c02Letters...)
+	rep.Set("alphabet", Names(letters))
+	for _, g := range []string{"G1", "G2", "G3", "G4", "G5"} {
+		ls := c02Graphs[g]
+		if len(ls) > maxGraph {
+			continue
+		}
+		for _, nofwd := range []bool{false, true} {
+			o := &Options{Letters: Alphabet(ls...), NoFwdRefs: nofwd, Checks: Checks{Resolve: true, Fold: true}}
+			res := mc.BFS(mc.Config{Letters: ls, New: New(o), MaxDepth: len(ls), Deadline: dl, Enabled: func(h []int, l int) bool {
+				for _, x := range h {
+					if x == l {
+						return false
+					}
+				}
+				return true
+			}})
+			Merge(rep, fmt.Sprintf("arrival-orders/%s/forward-refs-%v", g, !nofwd), res, len(ls))
+		}
+	}
+	for _, nofwd := range []bool{false, true} {
+		o := &Options{Letters: letters, NoFwdRefs: nofwd, Checks: Checks{Resolve: true, Fold: true}}
+		Search(rep, fmt.Sprintf("mixed/forward-refs-%v", !nofwd), o, depth, dl)
+	}
+}
+
+var c03Letters = []string{
+	"ADD v4 p@D ->1", "ADD v4 p@D ->2", "ADD v4 p@D ->1@V", "REPLACE v4 p@D ->2", "DELETE v4 p@D",
+	"ADD v4 p@V ->1@D", "ADD v4 p@V ->1", "DELETE v4 p@V",
+	"ADD v6 q@D ->1", "ADD v6 q@D ->2", "DELETE v6 q@D",
+	"ADD mpls 100@D ->1", "ADD mpls 100@D ->2", "DELETE mpls 100@D",
+	"ADD nhg1@D {1}", "ADD nhg1@D {2}", "ADD nhg1@D {1,2}", "REPLACE nhg1@D {2}", "DELETE nhg1@D",
+	"ADD nhg2@D {1}", "ADD nhg2@D {2}", "DELETE nhg2@D", "ADD nhg1@V {1}", "DELETE nhg1@V",
+	"ADD nh1@D a", "DELETE nh1@D", "ADD nh2@D", "DELETE nh2@D", "ADD nh1@V", "DELETE nh1@V",
+	"FLUSH D", "FLUSH V", "FLUSH all",
+}
+
+// RunC03 decides C03 at the RIB tier.
+func RunC03(rep *report.Report, tier string) {
+	depth := 4
+	dl := Budget(tier, 100*time.Second, 20*time.Minute)
+	names := append([]string{}, c03Letters...)
+	if tier == "thorough" {
+		depth = 6
+	}
+	names = append(names, "ADD nhg1@D {1,1}")
+	letters := Alphabet(names...)
+	rep.Set("alphabet", Names(letters))
+	for _, nofwd := range []bool{false, true} {
+		o := &Options{Letters: letters, NoFwdRefs: nofwd, Checks: Checks{Referrers: true}}
+		Search(rep, fmt.Sprintf("rib/forward-refs-%v", !nofwd), o, depth, dl)
+	}
+}
+
+var c16Letters = []string{
+	"ADD nh1@D a", "ADD nh1@D b", "DELETE nh1@D", "ADD nh1@V", "DELETE nh1@V",
+	"ADD nhg1@D {1}", "DELETE nhg1@D", "ADD nhg1@V {1}", "DELETE nhg1@V",
+	"ADD v4 p@D ->1", "ADD v4 p@D ->1@V", "REPLACE v4 p@D ->1 meta", "DELETE v4 p@D", "ADD v4 p@V ->1", "DELETE v4 p@V",
+	"ADD v6 q@D ->1", "DELETE v6 q@D", "ADD mpls 100@D ->1", "DELETE mpls 100@D",
+	"FLUSH D", "FLUSH V", "FLUSH all",
+}
+
+// RunC16 decides the post-change-hook half of C16 at the RIB tier.
+func RunC16(rep *report.Report, tier string) {
+	depth := 4
+	dl := Budget(tier, 100*time.Second, 20*time.Minute)
+	if tier == "thorough" {
+		depth = 5
+	}
+	letters := Alphabet(c16Letters...)
+	rep.Set("alphabet", Names(letters))
+	for _, hc := range []HookConfig{HookAfterNIs, HookBeforeNIs} {
+		o := &Options{Letters: letters, Checks: Checks{Hooks: true}, Hook: hc}
+		Search(rep, fmt.Sprintf("rib/hook-config-%d", hc), o, depth, dl)
 	}
 }
